@@ -6,12 +6,16 @@ property oracle.  See /verif/DESIGN.md §5 C12 and lean/NibabelModel/Model/C12.l
 import bz2
 import gzip
 import hashlib
+import atexit
 import inspect
 import io
 import itertools
+import json
 import os
 import pathlib
 import shutil
+import subprocess
+import sys
 import tempfile
 import urllib.parse
 
@@ -122,7 +126,14 @@ def table_facts():
         if not cid:
             raise RuntimeError(f'unknown opener definition for {ext!r}')
         keys.append((ext, cid[0]))
-    base_keys = [e for e in op.Opener.compress_ext_map if e is not None]
+    base_keys = []
+    for ext, d in op.Opener.compress_ext_map.items():
+        if ext is None:
+            continue
+        cid = [v for n, v in CODEC_IDS.items() if getattr(op.Opener, n) is d]
+        if not cid:
+            raise RuntimeError(f'unknown base opener definition for {ext!r}')
+        base_keys.append((ext, cid[0]))
     sae_default = list(inspect.signature(fp.splitext_addext).parameters['addexts'].default)
     tf_default = list(inspect.signature(fp.types_filenames).parameters['trailing_suffixes'].default)
     return dict(rows=rows, keys=keys, base_keys=base_keys, icase=bool(op.Opener.compress_ext_icase),
@@ -162,6 +173,8 @@ def regen():
           'def classTable : List ClassRow := ' + _lean_list(names), '',
           '/-- `ImageOpener.compress_ext_map` without the `None` entry, dict order; codec 1 gzip, 2 bz2, 3 zstd -/',
           'def openerKeys : List (Str × Nat) := ' + _lean_list([f'({_lean_str(e)}, {c})' for e, c in t['keys']]), '',
+          '/-- `Opener.compress_ext_map` of the BASE class (used by streamlines, freesurfer.io, user code) -/',
+          'def baseOpenerKeys : List (Str × Nat) := ' + _lean_list([f'({_lean_str(e)}, {c})' for e, c in t['base_keys']]), '',
           f'def compressExtIcase : Bool := {str(t["icase"]).lower()}', '',
           '/-- `loadsave._compressed_suffixes` -/',
           'def saveSuffixes : List Str := ' + _lean_list([_lean_str(e) for e in t['save_sfx']]), '',
@@ -357,6 +370,8 @@ def case_from_data(d):
     if op == 'save':
         return mk_save(d['cls'], d['dir'], d['stem'], d['ext'], d['ext_sp'], d['sfx_sp'], d['as_path'],
                        d.get('stream', 'save'), d.get('endian'))
+    if op == 'hist':
+        return mk_hist(d['steps'], d.get('stream', 'hist'))
     if op in ('tf', 'tforig', 'parse', 'sae', 'codec', 'ext'):
         return mk_simple(op, d['name'], d.get('cls'), d.get('flags', ()), d.get('stream'))
     raise ValueError(d)
@@ -522,7 +537,410 @@ def cases(rng, tier):
                     dp, st = rng.choice(SHAPES)
                     out.append(mk_save(cls, dp, st, e, es, ss, rng.random() < 0.3, 'save-cross',
                                        rng.choice(['<', '>'])))
+    out.extend(hist_cases(rng, tier))
     return out
+
+
+
+# --------------------------------------------------------------------------- histories over ONE process
+#
+# A history is a list of steps executed one after the other in a FRESH interpreter state (a forked child of
+# a worker that has done nothing but `import nibabel`), so that process-wide state (class / module level
+# caches, registries filled on first use) and the ORDER of operations are generator dimensions:
+#   {'k': 'O'|'I', 'rel': name}             base `Opener` / `ImageOpener` writes a side file under side/
+#   {'k': 'S', 'id': n, 'cls', 'dir', 'stem', 'ext', 'ext_sp', 'sfx_sp', 'as_path'}   nib.save into s<n>/
+#   {'k': 'L', 'sid': n, 'rel', 'as_path', 'of': n|None}    nib.load (+ data); `of` = the S step whose image
+#                                                            it must return (None: model comparison only)
+#   {'k': 'R', 'sid': n, 'a': rel, 'b': rel}                os.rename
+
+SIDE_PAYLOAD = b'side file, not an image\n' * 3
+
+
+def step_rel(st):
+    if st['k'] == 'S':
+        return f's{st["id"]}/' + (st['dir'] + '/' if st['dir'] else '') + st['stem'] + st['ext_sp'] + st['sfx_sp']
+    return st['rel']
+
+
+def _model_name(rel):
+    return tok(posix(FAKE_ROOT + '/' + rel))
+
+
+def mk_hist(steps, stream='hist'):
+    toks = []
+    for st in steps:
+        k = st['k']
+        if k in ('O', 'I'):
+            toks.append(f'{k}:{_model_name(st["rel"])}')
+        elif k == 'S':
+            toks.append(f'S:{st["cls"]}:{_model_name(step_rel(st))}')
+        elif k == 'L':
+            toks.append(f'L:{_model_name(st["rel"])}')
+        elif k == 'R':
+            toks.append(f'R:{_model_name(st["a"])}:{_model_name(st["b"])}')
+        else:
+            raise ValueError(st)
+    line = f'C12 hist {tok(FAKE_ROOT + "/")} {sniff_table(None)} ' + ' '.join(toks)
+    d = {'op': 'hist', 'steps': steps, 'stream': stream}
+    return Case(line, d, ('hist', json.dumps(steps, sort_keys=True)), stream)
+
+
+def run_history(steps):
+    """executed in the forked child: returns one {'obs': str, ...extras} per step"""
+    import nibabel as nib
+    fbi, _, _, _, op = _nib()
+    tmp = tempfile.mkdtemp(prefix='c12h_')
+    res = []
+    saved = {}
+    try:
+        for st in steps:
+            k = st['k']
+            if k in ('O', 'I'):
+                full = os.path.join(tmp, st['rel'])
+                os.makedirs(os.path.dirname(full), exist_ok=True)
+                opener = op.Opener if k == 'O' else op.ImageOpener
+                with opener(full, 'wb') as f:
+                    f.write(SIDE_PAYLOAD)
+                raw = open(full, 'rb').read()
+                with opener(full, 'rb') as f:
+                    back = f.read()
+                res.append({'obs': f'c{codec_of_bytes(raw)}', 'roundtrip': back == SIDE_PAYLOAD,
+                            'plain_ok': decompress(raw) == SIDE_PAYLOAD})
+            elif k == 'S':
+                rel = step_rel(st)
+                full = os.path.join(tmp, rel)
+                os.makedirs(os.path.dirname(full), exist_ok=True)
+                sdir = os.path.join(tmp, f's{st["id"]}')
+                img = make_image(st['cls'])
+                saved[st['id']] = st['cls']
+                with _SpyToFilename() as spy:
+                    try:
+                        nib.save(img, pathlib.Path(full) if st['as_path'] else full)
+                    except fbi.ImageFileError:
+                        res.append({'obs': 'ERR', 'files': listing(sdir)})
+                        continue
+                files = [f's{st["id"]}/' + f for f in listing(sdir)]
+                raw = {f: open(os.path.join(tmp, f), 'rb').read() for f in files}
+                wrote = spy.seen[-1]
+                r = {'obs': f'W={wrote},' + '|'.join(f'{enc(f)}:{codec_of_bytes(raw[f])}' for f in sorted(files)),
+                     'files': sorted(files), 'codecs': {f: codec_of_bytes(raw[f]) for f in files},
+                     'named_exists': os.path.isfile(posix(full))}
+                wk = class_by_name(wrote)
+                if issubclass(wk, fbi.SerializableImage) and len(files) == 1:
+                    try:
+                        r['plain_eq_bytes'] = decompress(raw[files[0]]) == make_image(st['cls']).to_bytes()
+                    except Exception as e:  # noqa: BLE001
+                        r['plain_eq_bytes'] = 'ERR:' + type(e).__name__
+                res.append(r)
+            elif k == 'L':
+                full = posix(os.path.join(tmp, st['rel']))
+                given = pathlib.Path(full) if st['as_path'] else full
+                r = {}
+                if not os.path.exists(full):
+                    r['obs'] = 'NOFILE'
+                else:
+                    try:
+                        img = nib.load(given)
+                        try:
+                            r['digest'] = data_digest(img)
+                            r['obs'] = type(img).__name__
+                            if st.get('of') in saved:
+                                r['same_data'] = same_data(img, make_image(saved[st['of']]))
+                        except Exception as e:  # noqa: BLE001
+                            if isinstance(e, OSError) or 'DoesNotExist' in type(e).__name__:
+                                r['obs'] = 'NOFILE'
+                            else:
+                                r['obs'] = errname(e)
+                    except fbi.ImageFileError:
+                        r['obs'] = 'ERR'
+                    except Exception as e:  # noqa: BLE001
+                        r['obs'] = errname(e)
+                res.append(r)
+            elif k == 'R':
+                a, b = os.path.join(tmp, st['a']), os.path.join(tmp, st['b'])
+                if os.path.exists(a):
+                    os.makedirs(os.path.dirname(b), exist_ok=True)
+                    os.rename(a, b)
+                    res.append({'obs': 'mv1'})
+                else:
+                    res.append({'obs': 'mv0'})
+            else:
+                raise ValueError(st)
+    finally:
+        shutil.rmtree(tmp, ignore_errors=True)
+    return res
+
+
+def worker_main():
+    """`python -c 'import props.c12 as m; m.worker_main()'`: imports nibabel (import-time state only, what a
+    user's fresh process has) and then runs every history read from stdin in a forked child of its own"""
+    import nibabel  # noqa: F401
+    _nib()
+    for line in sys.stdin:
+        req = json.loads(line)
+        r, w = os.pipe()
+        pid = os.fork()
+        if pid == 0:
+            os.close(r)
+            try:
+                out = {'res': run_history(req['steps'])}
+            except BaseException as e:  # noqa: BLE001
+                out = {'fatal': errname(e) if isinstance(e, Exception) else repr(e)}
+            with os.fdopen(w, 'w') as f:
+                json.dump(out, f)
+            os._exit(0)
+        os.close(w)
+        with os.fdopen(r) as f:
+            data = f.read()
+        os.waitpid(pid, 0)
+        sys.stdout.write((data or json.dumps({'fatal': 'child died'})) + '\n')
+        sys.stdout.flush()
+
+
+_WORKER = [None]
+
+
+def _stop_worker():
+    w = _WORKER[0]
+    if w is not None:
+        try:
+            w.stdin.close()
+            w.wait(timeout=10)
+        except Exception:  # noqa: BLE001
+            w.kill()
+        _WORKER[0] = None
+
+
+def _worker():
+    w = _WORKER[0]
+    if w is None or w.poll() is not None:
+        hdir = os.path.dirname(os.path.dirname(os.path.abspath(__file__)))
+        code = f'import sys; sys.path.insert(0, {hdir!r}); import props.c12 as m; m.worker_main()'
+        w = subprocess.Popen([sys.executable, '-W', 'ignore', '-c', code], stdin=subprocess.PIPE,
+                             stdout=subprocess.PIPE, text=True, bufsize=1)
+        if _WORKER[0] is None:
+            atexit.register(_stop_worker)
+        _WORKER[0] = w
+    return w
+
+
+def impl_hist(case):
+    w = _worker()
+    w.stdin.write(json.dumps({'steps': case.data['steps']}) + '\n')
+    w.stdin.flush()
+    line = w.stdout.readline()
+    if not line:
+        _stop_worker()
+        return 'ERR:worker-died'
+    out = json.loads(line)
+    if 'fatal' in out:
+        return 'ERR:' + str(out['fatal'])[:200]
+    case.extra = {'steps': out['res']}
+    return ';'.join(r['obs'] for r in out['res'])
+
+
+OPENER_NAMES = ['notes.txt', 'tracks.trk', 'fibers.tck', 'lh.white', 'noext', 'log.GZ', 'log.gz', 'a.Bz2', 'b.ZST',
+                'c.nii', 'c.NII.GZ', 'v.mgz', 'v.MGZ', 'v.Mgz', 'v.mGZ', 'w.mgh', 'dir.gz/plain', 'x.txt.gz',
+                'y.Gz', 'z.bz2', 'u.zst', 'lh.curv.MGZ', 'readme']
+
+HIST_SHAPES = [('', 'vol'), ('', 'f'), ('a b', 'my scan.v2'), ('with.dots', 'x.gz'), ('UP.DIR', 'Mixed.Case_STEM'),
+               ('', 'x.mgz'), ('', 'sub-01_T1w')]
+
+
+def _case_variant(rng, s):
+    """a random re-casing of the letters of `s` (never identical to `s` when it has letters)"""
+    if not any(c.isalpha() for c in s):
+        return s
+    for _ in range(20):
+        t = ''.join(c.upper() if rng.random() < 0.5 else c.lower() for c in s)
+        if t != s:
+            return t
+    return s.swapcase()
+
+
+def _pick_spelling(rng, ext):
+    sp = spellings(ext)
+    if len(sp) == 1:
+        return sp[0]
+    r = rng.random()
+    if r < 0.25:
+        return sp[0]
+    if r < 0.55 or len(sp) == 2:
+        return sp[1]
+    return rng.choice(sp[2:])
+
+
+def hist_save_step(rng, sid, cls=None, e=None, es=None, ss=None, shape=None, as_path=None):
+    cls = cls or rng.choice(WRITABLE)
+    if e is None:
+        e = rng.choice(member_exts(cls))
+    if es is None:
+        es = _pick_spelling(rng, e)
+    if ss is None:
+        sfx = [''] if e == '.mgz' else [''] + class_suffixes(cls)
+        ss = _pick_spelling(rng, rng.choice(sfx)) if rng.random() < 0.75 else ''
+        if e == '.mgz':
+            ss = ''
+    dp, stem = shape or rng.choice(HIST_SHAPES)
+    return {'k': 'S', 'id': sid, 'cls': cls, 'dir': dp, 'stem': stem, 'ext': e, 'ext_sp': es, 'sfx_sp': ss,
+            'as_path': bool(rng.random() < 0.4) if as_path is None else bool(as_path)}
+
+
+def hist_opener_step(rng, name=None, image=None):
+    image = (rng.random() < 0.4) if image is None else image
+    return {'k': 'I' if image else 'O', 'rel': 'side/' + (name or rng.choice(OPENER_NAMES))}
+
+
+def expected_files(st):
+    """the files an own-name save step must write (relative to the history's root)"""
+    k = class_by_name(st['cls'])
+    rel = posix(step_rel(st))
+    es, ss, e = st['ext_sp'], st['sfx_sp'], st['ext']
+    stem_p = rel[:len(rel) - len(es) - len(ss)]
+    if e == '.mgz':
+        return [rel]
+    sc = sibling_case(es)
+    return sorted(stem_p + (es if me == e else sc(me)) + ss for _, me in k.files_types)
+
+
+def _is_mat(f, ss):
+    base = f[:len(f) - len(ss)] if ss else f
+    return base.lower().endswith('.mat')
+
+
+def hist_followups(rng, st):
+    """load / rename steps that follow the save step `st` (with the oracle's expectation where it is certain)"""
+    out = []
+    sid = st['id']
+    rel = step_rel(st)
+    es, ss = st['ext_sp'], st['sfx_sp']
+    r = rng.random()
+    out.append({'k': 'L', 'sid': sid, 'rel': rel, 'as_path': rng.random() < 0.4, 'of': sid})
+    files = expected_files(st)
+    pure_case = es in (es.lower(), es.upper())
+    if r < 0.35 and len(files) > 1:
+        # generic load through every written member (suffix included): .img.zst, .hdr.bz2, ...
+        for f in files:
+            if not _is_mat(f, ss):
+                out.append({'k': 'L', 'sid': sid, 'rel': f, 'as_path': rng.random() < 0.3, 'of': sid if pure_case else None})
+    elif r < 0.7:
+        # rename every written file: new stem, new case of extension + suffix (same extension, same codec)
+        stem_p = posix(rel)[:len(posix(rel)) - len(es) - len(ss)]
+        new_stem = stem_p + rng.choice(['_moved', '.v2', ' copy'])
+        upper = rng.random() < 0.5
+        newnames = []
+        for f in files:
+            tail = f[len(stem_p):]
+            tail2 = tail.upper() if upper else (tail.lower() if rng.random() < 0.5 else _case_variant(rng, tail))
+            newnames.append(new_stem + tail2)
+            out.append({'k': 'R', 'sid': sid, 'a': f, 'b': new_stem + tail2})
+        tails = [n[len(new_stem):] for n in newnames]
+        consistent = all(t == t.upper() for t in tails) or all(t == t.lower() for t in tails)
+        for n in newnames:
+            if not _is_mat(n, ss):
+                out.append({'k': 'L', 'sid': sid, 'rel': n, 'as_path': rng.random() < 0.3,
+                            'of': sid if (consistent or len(files) == 1) else None})
+        out.append({'k': 'L', 'sid': sid, 'rel': rel, 'as_path': False, 'of': None})     # the old name is gone
+    elif r < 0.85 and len(files) > 1:
+        # lose one member, then try every remaining one
+        gone = rng.choice(files)
+        out.append({'k': 'R', 'sid': sid, 'a': gone, 'b': gone + '.bak'})
+        for f in files:
+            out.append({'k': 'L', 'sid': sid, 'rel': f, 'as_path': False, 'of': None})
+    return out
+
+
+ORDER_PREFIXES = [[], ['O:notes.txt'], ['O:log.GZ'], ['I:notes.txt'], ['I:v.MGZ'], ['O:v.Mgz'], ['O:tracks.trk', 'I:c.nii'],
+                  ['I:c.NII.GZ', 'O:lh.white'], ['O:noext', 'O:x.txt.gz', 'I:b.ZST']]
+ORDER_TARGETS = [('MGHImage', '.mgz', '.MGZ', ''), ('MGHImage', '.mgz', '.Mgz', ''), ('MGHImage', '.mgz', '.mgz', ''),
+                 ('MGHImage', '.mgh', '.MGH', ''), ('Nifti1Image', '.nii', '.NII', '.GZ'),
+                 ('Nifti1Pair', '.hdr', '.HDR', '.Bz2'), ('GiftiImage', '.gii', '.Gii', '.gZ'),
+                 ('Nifti2Image', '.nii', '.nii', '.ZST'), ('Spm2AnalyzeImage', '.img', '.IMG', '.GZ'),
+                 ('Cifti2Image', '.nii', '.Nii', '')]
+
+
+def hist_cases(rng, tier):
+    out = []
+    zst = have_zstd()
+    # ---- order stream: every prefix of opener uses x every target, save then load (and a second target after)
+    targets = [t for t in ORDER_TARGETS if zst or t[3].lower() != '.zst']
+    for pre in ORDER_PREFIXES:
+        for ti, (cls, e, es, ss) in enumerate(targets):
+            steps = [hist_opener_step(rng, p[2:], p[0] == 'I') for p in pre]
+            s1 = hist_save_step(rng, 1, cls, e, es, ss, HIST_SHAPES[0], as_path=(ti + len(pre)) % 2)
+            steps += [s1, {'k': 'L', 'sid': 1, 'rel': step_rel(s1), 'as_path': bool(ti % 2), 'of': 1}]
+            if tier != 'quick' or rng.random() < 0.5:
+                c2, e2, es2, ss2 = rng.choice(targets)
+                s2 = hist_save_step(rng, 2, c2, e2, es2, ss2, rng.choice(HIST_SHAPES))
+                steps += [hist_opener_step(rng), s2] + hist_followups(rng, s2)
+            out.append(mk_hist(steps, 'hist-order'))
+    # ---- random histories
+    n = {'quick': 110, 'thorough': 1500, 'search': 300}[tier]
+    for _ in range(n):
+        steps = []
+        sid = 0
+        for _ in range(rng.randrange(0, 4)):
+            steps.append(hist_opener_step(rng))
+        for _ in range(rng.randrange(1, 4)):
+            sid += 1
+            st = hist_save_step(rng, sid)
+            if not zst and st['sfx_sp'].lower() == '.zst':
+                st['sfx_sp'] = ''
+            steps.append(st)
+            if rng.random() < 0.4:
+                steps.append(hist_opener_step(rng))
+            steps += hist_followups(rng, st)
+            if rng.random() < 0.3:
+                steps.append(hist_opener_step(rng))
+        out.append(mk_hist(steps, 'hist'))
+    return out
+
+
+def oracle_hist(case, out):
+    d = case.data
+    ex = (case.extra or {}).get('steps')
+    if out.startswith('ERR:') or ex is None:
+        return f'history could not be run: {out}'
+    saved = {}
+    for i, (st, r) in enumerate(zip(d['steps'], ex)):
+        k = st['k']
+        where = f'step {i + 1}/{len(d["steps"])} of a history in one process'
+        if k in ('O', 'I'):
+            nm = 'ImageOpener' if k == 'I' else 'Opener'
+            if not r.get('roundtrip'):
+                return f'{where}: {nm}({st["rel"]!r}) does not read back what it wrote'
+            if not r.get('plain_ok'):
+                return f'{where}: the file {nm}({st["rel"]!r}) wrote does not decompress to the bytes written'
+        elif k == 'S':
+            saved[st['id']] = st
+            rel = posix(step_rel(st))
+            tag = f'{where}: {st["cls"]} saved as {rel!r}'
+            if not r['obs'].startswith('W='):
+                return f'{tag}: save of an accepted name failed: {r["obs"]}'
+            want = expected_files(st)
+            if r.get('files') != want:
+                return f'{tag}: files written {r.get("files")}, expected exactly {want}'
+            if not r.get('named_exists'):
+                return f'{tag}: the named file does not exist'
+            want_codec = {'': 0, '.gz': 1, '.bz2': 2, '.zst': 3}[st['sfx_sp'].lower()] if st['ext'] != '.mgz' else 1
+            for f, c in r['codecs'].items():
+                if c != want_codec:
+                    return f'{tag}: file {f!r} has codec {c}, the name asks for {want_codec}'
+            if r.get('plain_eq_bytes', True) is not True:
+                return f'{tag}: (decompressed) file content != to_bytes() ({r.get("plain_eq_bytes")})'
+        elif k == 'L':
+            src = saved.get(st.get('of'))
+            if src is None:
+                continue
+            tag = f'{where}: load of {st["rel"]!r} (image saved by step {st["of"]} as {step_rel(src)!r})'
+            ref_cls, ref_dig = reference(src['cls'], src['ext'], src['sfx_sp'].lower())
+            if ref_cls.startswith('ERR'):
+                continue
+            if r['obs'] != ref_cls:
+                return f'{tag}: generic load gives {r["obs"]}, a fresh process with the lower-case spelling gives {ref_cls}'
+            if r.get('digest') != ref_dig or not r.get('same_data'):
+                return f'{tag}: loaded data differ from the data saved'
+    return None
 
 
 # --------------------------------------------------------------------------- implementation side
@@ -582,6 +1000,8 @@ def impl(case):
         return ','.join(acc)
     if o == 'save':
         return impl_save(case)
+    if o == 'hist':
+        return impl_hist(case)
     raise ValueError(o)
 
 
@@ -861,6 +1281,8 @@ def oracle(case, out):
         return oracle_fm(d, out)
     if d['op'] == 'save':
         return oracle_save(case, out)
+    if d['op'] == 'hist':
+        return oracle_hist(case, out)
     return None
 
 
@@ -870,6 +1292,19 @@ def signature(case, what):
         meta = d.get('meta') or ['?', '?', '?', '?']
         kind = 'lower' if meta[1] == meta[1].lower() else 'upper' if meta[1] == meta[1].upper() else 'mixed'
         return f'filemap:{meta[0]}:{kind}'
+    if d['op'] == 'hist':
+        import re
+        m = re.search(r'step (\d+)/', what)
+        st = d['steps'][int(m.group(1)) - 1] if m else {}
+        src = st
+        if st.get('k') == 'L':
+            src = next((x for x in d['steps'] if x['k'] == 'S' and x['id'] == st.get('of')), {})
+        es = src.get('ext_sp', '')
+        kind = 'lower' if es == es.lower() else 'upper' if es == es.upper() else 'mixed'
+        what_kind = ('files' if 'files written' in what or 'named file' in what else
+                     'codec' if 'codec' in what else 'load' if 'load' in what else
+                     'routes' if 'to_bytes' in what else 'opener' if 'Opener' in what else 'other')
+        return f'hist:{st.get("k", "?")}:{src.get("ext", "-")}:{kind}:{what_kind}'
     if d['op'] == 'save':
         es = d['ext_sp']
         kind = 'lower' if es == es.lower() else 'upper' if es == es.upper() else 'mixed'
@@ -896,6 +1331,21 @@ def shrink_candidates(case):
             yield mk_save(d['cls'], d['dir'], d['stem'], d['ext'], d['ext_sp'], '', d['as_path'], d['stream'], d.get('endian'))
             if d['sfx_sp'] != d['sfx_sp'].lower():
                 yield mk_save(d['cls'], d['dir'], d['stem'], d['ext'], d['ext_sp'], d['sfx_sp'].lower(), d['as_path'], d['stream'], d.get('endian'))
+    if d['op'] == 'hist':
+        steps = d['steps']
+        # drop one save step together with everything that depends on it; drop one other step
+        for sid in sorted({st['id'] for st in steps if st['k'] == 'S'}, reverse=True):
+            rest = [st for st in steps if st.get('id') != sid and st.get('sid') != sid]
+            if rest and len(rest) < len(steps):
+                yield mk_hist(rest, d['stream'])
+        for i in range(len(steps) - 1, -1, -1):
+            if steps[i]['k'] != 'S':
+                yield mk_hist(steps[:i] + steps[i + 1:], d['stream'])
+        for i, st in enumerate(steps):
+            if st['k'] == 'S' and (st['dir'] or st['stem'] != 'f' or st['as_path']):
+                stems = {'dir': '', 'stem': 'f', 'as_path': False}
+                if not any(x.get('sid') == st['id'] for x in steps):
+                    yield mk_hist(steps[:i] + [{**st, **stems}] + steps[i + 1:], d['stream'])
     if d['op'] == 'fm' and d.get('meta'):
         e, es, ss, stem = d['meta']
         if stem != 'f':
